@@ -31,16 +31,9 @@ pub struct SerialMap<T> { _p: core::marker::PhantomData<T> }
 //@item core/src/message/remove_bus_listener_filter.rs struct RemoveBusListenerFilter
 //@item core/src/message/clear_bus_listener_filters.rs struct ClearBusListenerFilters
 
-pub trait IntoMessage {}
-impl IntoMessage for DestroyBusListenerReply {}
-impl IntoMessage for StopBusListenerReply {}
-
-impl VersionedMessage {
-    #[verifier::external_body]
-    pub fn new<T: IntoMessage>(msg: T, version: Option<ProtocolVersion>) -> (r: Self) { unimplemented!() }
-    #[verifier::external_body]
-    pub fn with_version<T: IntoMessage>(msg: T, version: ProtocolVersion) -> (r: Self) { unimplemented!() }
-}
+// protocol minor version that introduced each message kind sent by these handlers (0 = base protocol 1.14)
+impl IntoMessage for DestroyBusListenerReply { open spec fn min_minor() -> u32 { 0 } }
+impl IntoMessage for StopBusListenerReply { open spec fn min_minor() -> u32 { 0 } }
 
 // ---- BusListener: real struct, methods ASSUMED with the contracts verified in unit broker_bus_listener -----------
 //@item core/src/bus_listener.rs enum BusListenerScope attr=derive(Clone,Copy)
@@ -73,8 +66,12 @@ impl BusListener {
 impl ConnectionState {
     //@fn-from broker_conn_state broker/src/broker/conn_state.rs ConnectionState::remove_bus_listener
 
+    // sending only pushes into the connection's outgoing queue (interior mutability); no broker state changes.
+    // Precondition: the message kind exists in the connection's negotiated protocol version (see handler_prelude.rs).
     #[verifier::external_body]
-    pub(crate) fn send(&self, msg: VersionedMessage) -> (r: Result<(), ()>) { unimplemented!() }
+    pub(crate) fn send(&self, msg: VersionedMessage) -> (r: Result<(), ()>)
+        requires self.version.allows(msg.min_minor())
+    { unimplemented!() }
 }
 
 // ---- Broker -------------------------------------------------------------------------------------------
